@@ -33,6 +33,15 @@ def _answers(prop, tier, system, thms, modes=(False,), level="model_checking"):
         nconds = rng.choice([1, 2, 3, 3, 4, 4, 5]) if system != "c" else rng.choice([1, 2, 3, 3, 4])
         cases.append(infer.gen_case(rng, atoms, nconds, 12, shapes))
     infer.run_sampled(chk, cases, configs)
+    if system in ("z", "w", "l", "p"):
+        # implementation-shaped algorithms refine the definitions; inputs that tell the named wrong variants apart are always replayed
+        infer.verify_algo(chk, tier)
+        dcases = infer.distinguishing_cases(rng)
+        if tier == "thorough":
+            found = [p for p in infer.search_distinguishing(chk, rng, 20000) if p.get("variant") == "lexAllPairs"]
+            chk.cov["distinguishing_inputs_found_live"] = len(found)
+        infer.run_sampled(chk, dcases, configs, tag="distinguishing")
+        chk.cov["distinguishing_inputs_replayed"] = len(dcases)
     chk.cov["exhaustive"] = True
     chk.cov["rule"] = (
         "path G: TLC enumerates every multiset of <=2 semantic conditionals over 2 atoms (3402 bases); those consistent for the mode are "
